@@ -3,6 +3,7 @@ mod common;
 mod driver;
 mod engines;
 mod oracle;
+mod policylog;
 mod script;
 mod supervise;
 mod val;
